@@ -461,6 +461,8 @@ class Interp(object):
     def _is(self, a, b):
         if a is None or b is None:
             return a is b
+        if isinstance(a, Rat) and isinstance(b, Rat):
+            return a is b            # number objects: the very same object or not (an equal value need not be identical)
         if isinstance(a, ExtRef) and isinstance(b, ExtRef):
             return a.dotted == b.dotted
         if isinstance(a, ClassRef) and isinstance(b, ClassRef):
